@@ -173,6 +173,12 @@ where
 {
     fn write(&mut self, buf: &[u8]) -> std::io::Result<usize> {
         let total_len = (self.max_pdu_length + PDU_HEADER_SIZE) as usize;
+        if !buf.is_empty() && self.buffer.len() == total_len && total_len > PDU_PDV_HEADER_SIZE {
+            // the buffer is already full: send this PDU first,
+            // so that this call can consume at least one byte
+            // (returning `Ok(0)` would make `write_all` fail)
+            self.dispatch_pdu()?;
+        }
         if self.buffer.len() + buf.len() <= total_len {
             // accumulate into buffer, do nothing
             self.buffer.extend(buf);
@@ -499,6 +505,21 @@ pub mod non_blocking {
             Ok(())
         }
 
+        /// Called once a full PDU was sent and the buffer was reset:
+        /// if the buffer had already been full when the write began,
+        /// nothing from the caller's buffer was taken yet,
+        /// so take what fits now
+        /// (returning `Ok(0)` would make `write_all` fail).
+        fn consume_after_dispatch(&mut self, buf: &[u8], consumed: usize) -> usize {
+            if consumed > 0 {
+                return consumed;
+            }
+            let total_len = (self.max_pdu_length + PDU_HEADER_SIZE) as usize;
+            let n = buf.len().min(total_len.saturating_sub(PDU_PDV_HEADER_SIZE));
+            self.buffer.extend(&buf[..n]);
+            n
+        }
+
         async fn finish_impl(&mut self) -> std::io::Result<()> {
             // If finish is called in writing state, the stream may be corrupted, return an error
             if let WriteState::Writing(pos, consumed) = self.state {
@@ -580,7 +601,9 @@ pub mod non_blocking {
                                     if written == this.buffer.len() {
                                         // If we wrote the whole buffer, reset `self.buffer`
                                         this.buffer.truncate(PDU_PDV_HEADER_SIZE);
-                                        return Poll::Ready(Ok(consumed));
+                                        return Poll::Ready(Ok(
+                                            this.consume_after_dispatch(buf, consumed)
+                                        ));
                                     }
                                 }
                                 Poll::Ready(Err(e)) => return Poll::Ready(Err(e)),
@@ -622,7 +645,9 @@ pub mod non_blocking {
                                     // If we wrote the whole buffer, reset `self.buffer` and change state back to ready
                                     this.buffer.truncate(PDU_PDV_HEADER_SIZE);
                                     this.state = WriteState::Ready;
-                                    return Poll::Ready(Ok(consumed));
+                                    return Poll::Ready(Ok(
+                                        this.consume_after_dispatch(buf, consumed)
+                                    ));
                                 }
                             }
                             Poll::Ready(Err(e)) => return Poll::Ready(Err(e)),
